@@ -289,7 +289,7 @@ def _wiring(eq, ae, ns, kernel, out, stats, timeout_ms):
                 snap = tuple([a[i] for i in range(3)] if n in VEC else a
                              for n, a in zip(names, args)) \
                     if len(names) == len(args) else args
-                calls.append((hook, names, snap))
+                calls.append((hook, names, snap, tuple(nnctx)))
                 return 1.0
             return call
 
@@ -308,9 +308,11 @@ def _wiring(eq, ae, ns, kernel, out, stats, timeout_ms):
         def size(self, real=False):
             return 1
 
+    nnctx = [None, None]
+
     class NN(object):
         def set_context(self, s, d):
-            pass
+            nnctx[:] = [s, d]
 
         def get_nearest_neighbors(self, d_idx, nbrs):
             nbrs.data = [0]
@@ -353,7 +355,7 @@ def _wiring(eq, ae, ns, kernel, out, stats, timeout_ms):
             break
         ws, calls_ = path.value
         seen_src = {}
-        for hook, names, args in calls_:
+        for hook, names, args, nctx in calls_:
             if len(names) != len(args):
                 out.setdefault("harness_errors", []).append(
                     "%s.%s called with %d args for %d parameters" % (
@@ -364,6 +366,12 @@ def _wiring(eq, ae, ns, kernel, out, stats, timeout_ms):
                 if n.startswith("s_") and n != "s_idx" and isinstance(a, Buf):
                     src = a.tag[0]
             pairs, labels = [], []
+            if src is not None and hook in ("loop", "loop_all") and \
+                    nctx != (ws[src].index, ws["a"].index):
+                pairs.append((1.0, 0.0))
+                labels.append("neighbours queried with set_context%r, "
+                              "documented (source %s=%d, destination a=0)" %
+                              (nctx, src, ws[src].index))
             for n, a in zip(names, args):
                 if n.startswith("d_") and n != "d_idx":
                     ok = isinstance(a, Buf) and a.tag == ("a", n[2:])
